@@ -92,5 +92,17 @@ class WorkerManager:
                 logger.error(f"Error joining task: {e}")
                 failed = True
 
+        self._close_queues()
+
         if failed:
             raise Exception("Error while joining tasks")
+
+    def _close_queues(self) -> None:
+        """Close the command/result queues so that their feeder threads end with the run."""
+        for _, command_queue, result_queue in self.process_register.values():
+            for _queue in (command_queue, result_queue):
+                try:
+                    _queue.close()
+                    _queue.cancel_join_thread()
+                except Exception as e:  # pragma: no cover - defensive, closing must not mask the run's outcome
+                    logger.error(f"Error closing queue: {e}")
